@@ -433,10 +433,11 @@ impl Array4 {
 
         // Create estimator and restore state
         let mut estimator = HipEstimator::new(lg_config_k);
+        // the flag first: marking the estimator out of order clears the accumulator, which the image carries
+        estimator.set_out_of_order(ooo);
         estimator.set_hip_accum(hip_accum);
         estimator.set_kxq0(kxq0);
         estimator.set_kxq1(kxq1);
-        estimator.set_out_of_order(ooo);
 
         Ok(Self {
             lg_config_k,
